@@ -65,7 +65,7 @@ func main() {
 		tieS:  res.Tie("small-scope", "K2", "ALL write histories up to the stated length over ids {a,b} (add/update/create-update/delete/failing-precondition) x every subscription point x {plain, updates-only, read mask} subscribers (opened together when there is no equivalence) x equivalence {none, equal}; distinct = distinct scripts"),
 		tieR:  res.Tie("subscribe-during-write", "K4", "a subscriber opens WHILE one write is in flight, steered through the yield points: (a) subscriber parked at {value,coll}.onUpdate.beforeListen (between its snapshot and its bus registration) while the write runs - compared: whether the write is blocked on the resource lock (decided from the goroutine's wait reason) or finishes, the seed, every delivery; (b) write parked at value.set.beforeSend / coll.update.beforeSend (committed, not published) while the subscriber opens. ALL (initial contents, prefix write, write in flight) over the small alphabet, each followed by three follow-up writes, x both kinds x {plain, updates-only, read mask} x equivalence {none, equal}, Collection and Value; (c) write parked inside Bus.Send right after its snapshot of the listeners (bus.send.afterSnapshot) while the subscriber opens, the snapshot holding {no, a cancelled, a cancelled and a live, a live and a cancelled} listener: the new subscriber is seeded with the write, is not served by that Send, survives its garbage collection and receives every follow-up write; (d) a Delete parked right after its first read (coll.delete.afterRead) while another write of the same or another id runs to completion: ALL (initial contents, prefix write, Delete options {none, allow-missing, expected value, expected check}, overtaking write) - compared: both answers and every delivery (the REMOVE must carry the item actually removed); the random K1 histories contain all four kinds of scenario too. distinct = distinct scripts"),
 		tieP:  res.Tie("pullid-scope", "K2", "ALL write histories up to the stated length over {add a, create-update a, masked update of a with write time, update of a to a message whose `a` is 0, delete a, add b} x every subscription point x a PullID(a) subscriber {plain, read mask} x resource equivalence {none, equal, sameA}: the item's seed value flagged seed and last-seed, other ids skipped, the changes of the id the equivalence does not relate forwarded as values, the stream ended by exactly the first delivered REMOVE (a REMOVE the equivalence relates to `no item` is suppressed by the inner Pull and the stream goes on); distinct = distinct scripts"),
-		tieH:  res.Tie("stalled-subscriber", "K4", "a backpressured Value.Pull subscriber whose consumer stops receiving (hold) while the writer goes on: its forwarder takes one change and blocks, the next Set that announces a change waits the full 5 s of Value.set's send deadline on that listener and gives up - ALL listed layouts of healthy subscribers registered before / after the stalled one (plain, read mask, updates-only; with/without initial value; one or two held subscribers; hold before the first write or after one) x the write sequence (a Set the forwarder takes, a Set that finds it stalled, resume, further Sets). Each script runs in its own child process of the harness (the 5 s wait overlaps with the other families); compared: every answer (value and error of each Set, who was handed which event, what the resumed subscriber receives). distinct = distinct scripts"),
+		tieH:  res.Tie("stalled-subscriber", "K4", "Collection: a backpressured Collection.Pull subscriber whose consumer stops receiving (hold): its forwarder takes one change, the next Update / Add / Delete (stallw) waits at that listener - there is no deadline - until the consumer receives again after 5.6 s; healthy subscribers registered before / after the held one (plain, read masks incl. nested, updates-only), the waiting write an update / a create / a delete; compared: the write's answer (no error), what the resumed subscriber was owed, everybody's delivery of the waiting write and of the writes after it. Value: a backpressured Value.Pull subscriber whose consumer stops receiving (hold) while the writer goes on: its forwarder takes one change and blocks, the next Set that announces a change waits the full 5 s of Value.set's send deadline on that listener and gives up - ALL listed layouts of healthy subscribers registered before / after the stalled one (plain, read mask, updates-only; with/without initial value; one or two held subscribers; hold before the first write or after one) x the write sequence (a Set the forwarder takes, a Set that finds it stalled, resume, further Sets). Each script runs in its own child process of the harness (the 5 s wait overlaps with the other families); compared: every answer (value and error of each Set, who was handed which event, what the resumed subscriber receives). distinct = distinct scripts"),
 		mon:   res.Monitor("writer-log", "the stream each subscriber received vs the writer's own log: seed = current contents sorted by id, flagged, last flagged last, stored change time; then exactly one event per successful write (none for failed writes or a no-op delete), id/kind/old/new from what the writer's calls returned, time = write time or a clock reading within the write, suppression iff the configured equivalence relates the compared pair"),
 	}
 	r := lib.NewRand(f.Seed)
@@ -145,7 +145,7 @@ func opLine(o Op) string {
 	if o.Op == "sub" || o.Op == "unsub" || o.Op == "subid" || o.Op == "racef" || o.Op == "hold" || o.Op == "resume" {
 		return o.subLine()
 	}
-	if isRace(o) || o.Op == "racee" {
+	if isRace(o) || o.Op == "racee" || o.Op == "stallw" {
 		return o.Op + " id=" + o.ID + " msg=" + o.Msg + " " + strings.Join(o.Opts, " ")
 	}
 	if o.Op == "raced" {
@@ -198,6 +198,8 @@ func runCode(s Script) []obs {
 			o.ids = lastRaceIDs
 		case "racef":
 			o.ans = r.raceF(op)
+		case "stallw":
+			o.ans, o.ids = r.stallW(op)
 		case "hold":
 			o.ans = r.hold(op)
 		case "resume":
@@ -323,7 +325,7 @@ func (h *harness) record(s Script, code []obs, tie *lib.Tie) {
 		h.mon.Eval(key, true, nil)
 		w.check(h.mon, s, i, code[i])
 		if op.Op == "sub" || op.Op == "unsub" || op.Op == "subid" || isRace(op) || op.Op == "racee" || op.Op == "racef" ||
-			op.Op == "hold" || op.Op == "resume" {
+			op.Op == "hold" || op.Op == "resume" || op.Op == "stallw" {
 			subsDesc += opLine(op) + ";"
 		}
 	}
@@ -361,7 +363,7 @@ type subState struct {
 
 // owedEvent: an event of a successful write a held subscriber has not received yet
 type owedEvent struct {
-	val string
+	val string // Value: the projected value; Collection: id|kind|old|new (projected)
 	t   refEntry
 }
 
@@ -399,6 +401,19 @@ func proj(msg string, rm *string) string {
 		return msg
 	}
 	return project(Op{Opts: []string{"rm=" + *rm}}, rparse(msg)).String()
+}
+
+// effEqv: the equivalence a resource built with the listed options has, as the documentation of
+// WithEquivalence states it: options apply in order, the last one decides, nil = no equivalence checking.
+func effEqv(list string) string {
+	if list == "" {
+		return ""
+	}
+	toks := strings.Split(list, ",")
+	if last := toks[len(toks)-1]; last != "nil" {
+		return last
+	}
+	return ""
 }
 
 func eqvHolds(name, x, y string) bool {
@@ -512,6 +527,24 @@ func (w *writerLog) check(m *lib.Monitor, s Script, i int, o obs) {
 			w.checkSub(m, in, sig, s1, o.ans)
 			w.checkSub(m, in, sig, s2, a2)
 		}
+	case "stallw":
+		// a Collection write made while a held subscriber's forwarder was full; that subscriber received
+		// again while the write was waiting for it. What the writer may rely on: the write is not failed by
+		// a slow subscriber (there is no error to report: the item is stored), the resumed subscriber gets
+		// what it was owed and then, like EVERY open subscriber, this write's event exactly once.
+		wop, rname := splitStallW(op)
+		halves := strings.SplitN(o.ans, " || ", 2)
+		if len(halves) != 2 {
+			m.Violate(sig+"/panic-or-stall", "a call panicked, stalled, or an expected delivery never arrived", in, "two answers", o.ans)
+			return
+		}
+		w.checkResume(m, in, sig, Op{Op: "resume", Opts: []string{"name=" + rname}}, obs{ans: halves[0]})
+		o2 := obs{ans: halves[1], clk0: o.clk0, clk1: o.clk1, ids: o.ids}
+		if part(o2.ans, "err") == "Unknown" && part(o2.ans, "val") == "nil" && !wop.has("chk") {
+			m.Violate(sig+"/write-failed-by-slow-subscriber", "a write whose item was stored was reported as failed because a subscriber was slow to receive", in, "no error", o2.ans)
+		}
+		exp, evTime := w.applyWrite(m, in, wop, o2)
+		w.checkDeliveries(m, in, sig, exp, evTime, o2.ans)
 	case "hold":
 		if st := w.subs[optOf(op, "name")]; st != nil {
 			st.held = true
@@ -825,7 +858,12 @@ func (w *writerLog) checkDeliveries(m *lib.Monitor, in map[string]any, sig strin
 			if len(got) > 0 {
 				m.Violate(sig+"/held-subscriber-received", "a subscriber that was not receiving received an event", in, "[]", part(o.ans, name))
 			}
-			if exp != nil {
+			if exp != nil && w.cfg.Kind != "val" {
+				oldP, newP := proj(exp[2], st.rm), proj(exp[3], st.rm)
+				if eqv := effEqv(w.cfg.Eqv); eqv == "" || !eqvHolds(eqv, oldP, newP) {
+					st.owed = append(st.owed, owedEvent{val: exp[0] + "|" + exp[1] + "|" + oldP + "|" + newP, t: evTime})
+				}
+			} else if exp != nil {
 				st.owed = append(st.owed, owedEvent{val: proj(exp[3], st.rm), t: evTime})
 			} else if w.stalled() && part(o.ans, "err") == "Unknown" {
 				st.dlFailed++
@@ -837,7 +875,7 @@ func (w *writerLog) checkDeliveries(m *lib.Monitor, in map[string]any, sig strin
 		if exp != nil {
 			if w.cfg.Kind == "val" {
 				v := proj(exp[3], st.rm)
-				if w.cfg.Eqv != "" && eqvHolds(w.cfg.Eqv, st.last, v) {
+				if eqv := effEqv(w.cfg.Eqv); eqv != "" && eqvHolds(eqv, st.last, v) {
 					suppressed = true
 				} else {
 					want = []string{v}
@@ -845,7 +883,7 @@ func (w *writerLog) checkDeliveries(m *lib.Monitor, in map[string]any, sig strin
 				}
 			} else {
 				oldP, newP := proj(exp[2], st.rm), proj(exp[3], st.rm)
-				if w.cfg.Eqv != "" && eqvHolds(w.cfg.Eqv, oldP, newP) {
+				if eqv := effEqv(w.cfg.Eqv); eqv != "" && eqvHolds(eqv, oldP, newP) {
 					suppressed = true
 				} else {
 					want = []string{exp[0] + "|" + exp[1] + "|" + oldP + "|" + newP}
@@ -939,6 +977,27 @@ func (w *writerLog) checkResume(m *lib.Monitor, in map[string]any, sig string, o
 	}
 	for k, e := range owed {
 		f := strings.Split(got[k], "|")
+		if w.cfg.Kind != "val" {
+			if len(f) < 6 {
+				m.Violate(sig+"/panic-or-stall", "a call panicked, stalled, or an expected delivery never arrived", in, e.val, got[k])
+				continue
+			}
+			switch wf := strings.Split(e.val, "|"); {
+			case f[0] != wf[0]:
+				m.Violate(sig+"/wrong-id", "event id is not the id written", in, wf[0], f[0])
+			case f[2] != wf[1]:
+				m.Violate(sig+"/wrong-kind", "kind must be ADD iff the id was absent, UPDATE otherwise, REMOVE for Delete", in, wf[1], f[2])
+			case f[3] != wf[2]:
+				m.Violate(sig+"/wrong-old", "old value is not the previous new value for that id", in, wf[2], f[3])
+			case f[4] != wf[3]:
+				m.Violate(sig+"/wrong-new", "new value is not the result returned to the writer", in, wf[3], f[4])
+			case f[5] != "":
+				m.Violate(sig+"/wrong-flags", "an update is flagged as seed", in, "", f[5])
+			case !e.t.timeOK(f[1]):
+				m.Violate(sig+"/wrong-time", "change time is neither the write time nor a clock reading taken during the write", in, fmt.Sprint(e.t), f[1])
+			}
+			continue
+		}
 		switch {
 		case f[0] != e.val:
 			m.Violate(sig+"/wrong-new", "event value is not the (projected) result returned to the writer", in, e.val, f[0])
@@ -974,7 +1033,7 @@ func (w *writerLog) checkPidDelivery(m *lib.Monitor, in map[string]any, st *subS
 		// relates the item to "no item": then the stream goes on
 		oldP, newP := proj(exp[2], st.rm), proj(exp[3], st.rm)
 		switch {
-		case w.cfg.Eqv != "" && eqvHolds(w.cfg.Eqv, oldP, newP):
+		case effEqv(w.cfg.Eqv) != "" && eqvHolds(effEqv(w.cfg.Eqv), oldP, newP):
 		case exp[1] == "REMOVE":
 			st.ended = true
 		default:
@@ -1025,14 +1084,30 @@ func fixedScripts() []Script {
 			{Op: "sub", Opts: []string{"name=k1"}}, {Op: "add", ID: "c", Msg: "1//-"}, {Op: "add", ID: "c", Msg: "2//-"},
 			{Op: "upd", ID: "c", Msg: "5//-", Opts: []string{"wt=40"}}, {Op: "del", ID: "c"}, {Op: "add", ID: "c", Msg: "7//-"},
 			{Op: "del", ID: "zz", Opts: []string{"am"}}, {Op: "sub", Opts: []string{"name=k2", "rm=a"}}, {Op: "del", ID: "a"}}},
+		// option LISTS: an equivalence switched on and then off again (re-statements are events), replaced
+		{Cfg: Cfg{Kind: "val", Tick: 1, Init: []string{"1/x/-"}, Eqv: "equal,nil"}, Ops: []Op{
+			{Op: "sub", Opts: []string{"name=v"}}, {Op: "sub", Opts: []string{"name=w", "rm=a"}}, {Op: "vset", Msg: "1/x/-"},
+			{Op: "vset", Msg: "1/y/-"}, {Op: "vset", Msg: "1/y/-", Opts: []string{"wt=3"}}, {Op: "vset", Msg: "2/y/-"}}},
+		{Cfg: Cfg{Kind: "coll", Tick: 1, Init: []string{"a~1/x/-"}, Eqv: "sameA,nil"}, Ops: []Op{
+			{Op: "sub", Opts: []string{"name=v"}}, {Op: "sub", Opts: []string{"name=w", "rm=a"}}, {Op: "upd", ID: "a", Msg: "1/x/-"},
+			{Op: "upd", ID: "a", Msg: "1/y/-"}, {Op: "subid", Opts: []string{"name=p", "id=a"}}, {Op: "upd", ID: "a", Msg: "1/y/-"}, {Op: "del", ID: "a"}}},
+		{Cfg: Cfg{Kind: "val", Tick: 1, Init: []string{"1/x/-"}, Eqv: "equal,sameA"}, Ops: []Op{
+			{Op: "sub", Opts: []string{"name=v"}}, {Op: "vset", Msg: "1/y/-"}, {Op: "vset", Msg: "2/y/-"}, {Op: "vset", Msg: "2/y/-"}}},
+		{Cfg: Cfg{Kind: "coll", Tick: 1, Init: []string{"a~1/x/-"}, Eqv: "nil,equal"}, Ops: []Op{
+			{Op: "sub", Opts: []string{"name=v"}}, {Op: "upd", ID: "a", Msg: "1/x/-"}, {Op: "upd", ID: "a", Msg: "1/y/-"}}},
 		{Cfg: Cfg{Kind: "val", Tick: 1, Init: []string{"1/x/-"}, Eqv: "equal"}, Ops: []Op{
 			{Op: "sub", Opts: []string{"name=v", "rm=a"}}, {Op: "vset", Msg: "1/y/-"}, {Op: "vset", Msg: "2/y/-"},
 			{Op: "vset", Msg: "3//-", Opts: []string{"ev=9//-"}}}},
 	}
 }
 
-var eqvPool = []string{"", "", "", "equal", "sameA"}
-var subOptPool = [][]string{nil, nil, {"uo"}, {"rm=a"}, {"rm=s,c"}, {"rm=0"}, {"uo", "rm=a"}}
+// the resource's equivalence options, in the order they are passed (the last one decides; "nil" =
+// WithEquivalence(nil): set and cleared again, cleared and set, replaced)
+var eqvPool = []string{"", "", "", "equal", "sameA", "equal,nil", "sameA,equal,nil", "nil", "nil,sameA", "equal,sameA", "sameA,nil,equal"}
+// read masks include NESTED shapes: a message field together with a path inside it (names what the parent
+// names), paths inside only, inner path before its parent
+var subOptPool = [][]string{nil, nil, {"uo"}, {"rm=a"}, {"rm=s,c"}, {"rm=0"}, {"uo", "rm=a"}, {"rm=f,fc"}, {"rm=fd,a,f"}, {"rm=fc"},
+	{"rm=fc,fd,s"}, {"uo", "rm=s,f,fd"}, {"rm=f,r"}}
 
 // raceOp wraps a write and a subscription into a scenario op.
 func raceOp(kind string, w Op, name string, subOpts []string) Op {
@@ -1089,7 +1164,7 @@ func genHistory(r *rand.Rand, n int) Script {
 	for i := 0; i < n; i++ {
 		k := r.Intn(100)
 		maxLive := 3
-		if s.Cfg.Eqv != "" {
+		if effEqv(s.Cfg.Eqv) != "" {
 			maxLive = 1
 		}
 		switch {
@@ -1111,7 +1186,7 @@ func genHistory(r *rand.Rand, n int) Script {
 				s.Ops = append(s.Ops, Op{Op: "subid", Opts: append([]string{"name=" + name, "id=" + id}, so...)})
 				continue
 			}
-			if s.Cfg.Eqv == "" && len(live) < maxLive && r.Intn(100) < 15 {
+			if effEqv(s.Cfg.Eqv) == "" && len(live) < maxLive && r.Intn(100) < 15 {
 				// two subscribers register at the same time
 				nsub++
 				name2 := fmt.Sprintf("k%d", nsub)
@@ -1168,13 +1243,13 @@ func genHistory(r *rand.Rand, n int) Script {
 func (h *harness) raceScope(tie *lib.Tie) {
 	var alpha []Op
 	for _, id := range []string{"a", "b"} {
-		alpha = append(alpha, Op{Op: "add", ID: id, Msg: "1//-"}, Op{Op: "upd", ID: id, Msg: "2/x/-", Opts: []string{"cia"}},
+		alpha = append(alpha, Op{Op: "add", ID: id, Msg: "1//-"}, Op{Op: "upd", ID: id, Msg: "2/x/-/3:4/-", Opts: []string{"cia"}},
 			Op{Op: "upd", ID: id, Msg: "1/y/-", Opts: []string{"um=s", "wt=9"}}, Op{Op: "del", ID: id})
 	}
 	alpha = append(alpha, Op{Op: "upd", ID: "a", Msg: "3//-", Opts: []string{"ev=1//-"}})
-	valpha := []Op{{Op: "vset", Msg: "1//-"}, {Op: "vset", Msg: "2/x/-"}, {Op: "vset", Msg: "2/y/-", Opts: []string{"um=s", "wt=9"}},
+	valpha := []Op{{Op: "vset", Msg: "1//-"}, {Op: "vset", Msg: "2/x/-/3:4/-"}, {Op: "vset", Msg: "2/y/-", Opts: []string{"um=s", "wt=9"}},
 		{Op: "vset", Msg: "3//-", Opts: []string{"ev=1//-"}}}
-	subOpts := [][]string{nil, {"uo"}, {"rm=a"}}
+	subOpts := [][]string{nil, {"uo"}, {"rm=a,f,fc"}}
 	run := func(kind string, alpha []Op, inits [][]string) {
 		prefixes := [][]Op{nil}
 		for _, a := range alpha {
@@ -1289,9 +1364,9 @@ func (h *harness) raceScope(tie *lib.Tie) {
 	runF("val", valpha, [][]string{nil, {"1//-"}})
 	// a Delete overtaken, between its first read and its write lock, by another write (raced): ALL
 	// (initial contents, prefix write, Delete options, overtaking write), two subscribers watching
-	overtaking := []Op{{Op: "upd", ID: "a", Msg: "2/x/-", Opts: []string{"cia"}}, {Op: "upd", ID: "a", Msg: "3//-"},
+	overtaking := []Op{{Op: "upd", ID: "a", Msg: "2/x/-/3:4/-", Opts: []string{"cia"}}, {Op: "upd", ID: "a", Msg: "3//-"},
 		{Op: "upd", ID: "a", Msg: "1/y/-", Opts: []string{"cia", "wt=9"}}, {Op: "add", ID: "a", Msg: "1//-"}, {Op: "del", ID: "a"},
-		{Op: "upd", ID: "b", Msg: "2/x/-", Opts: []string{"cia"}}}
+		{Op: "upd", ID: "b", Msg: "2/x/-/3:4/-", Opts: []string{"cia"}}}
 	delOpts := [][]string{nil, {"am"}, {"ev=1//-"}, {"chk=aEq:1"}}
 	prefixes := [][]Op{nil}
 	for _, a := range alpha {
@@ -1315,11 +1390,11 @@ func (h *harness) raceScope(tie *lib.Tie) {
 func (h *harness) smallScope(maxLen int) {
 	var alpha []Op
 	for _, id := range []string{"a", "b"} {
-		alpha = append(alpha, Op{Op: "add", ID: id, Msg: "1//-"}, Op{Op: "upd", ID: id, Msg: "2/x/-", Opts: []string{"cia"}},
+		alpha = append(alpha, Op{Op: "add", ID: id, Msg: "1//-"}, Op{Op: "upd", ID: id, Msg: "2/x/-/3:4/-", Opts: []string{"cia"}},
 			Op{Op: "upd", ID: id, Msg: "1/y/-", Opts: []string{"um=s", "wt=9"}}, Op{Op: "del", ID: id})
 	}
 	alpha = append(alpha, Op{Op: "upd", ID: "a", Msg: "3//-", Opts: []string{"ev=1//-"}})
-	subOpts := [][]string{nil, {"uo"}, {"rm=a"}}
+	subOpts := [][]string{nil, {"uo"}, {"rm=a,f,fc"}}
 	var rec func(ops []Op)
 	rec = func(ops []Op) {
 		if len(ops) > 0 {
@@ -1333,6 +1408,8 @@ func (h *harness) smallScope(maxLen int) {
 				}
 				full = append(full, ops[p:]...)
 				h.runScript(Script{Cfg: Cfg{Kind: "coll", Tick: 1}, Ops: full}, h.tieS)
+				// ... and the same on a resource whose option list switched an equivalence on and off again
+				h.runScript(Script{Cfg: Cfg{Kind: "coll", Tick: 1, Eqv: "equal,nil"}, Ops: full}, h.tieS)
 				for _, so := range subOpts {
 					full = append([]Op(nil), ops[:p]...)
 					full = append(full, Op{Op: "sub", Opts: append([]string{"name=k"}, so...)})
@@ -1356,10 +1433,10 @@ func (h *harness) smallScope(maxLen int) {
 // without a resource equivalence (its decisions are attributed to the PullID's inner Pull and the
 // harness's shadow Pull, which are the only listeners).
 func (h *harness) pullIDScope(maxLen int) {
-	alpha := []Op{{Op: "add", ID: "a", Msg: "1//-"}, {Op: "upd", ID: "a", Msg: "2/x/-", Opts: []string{"cia"}},
+	alpha := []Op{{Op: "add", ID: "a", Msg: "1//-"}, {Op: "upd", ID: "a", Msg: "2/x/-/3:4/-", Opts: []string{"cia"}},
 		{Op: "upd", ID: "a", Msg: "1/y/-", Opts: []string{"um=s", "wt=9"}}, {Op: "upd", ID: "a", Msg: "0/x/-", Opts: []string{"cia"}},
 		{Op: "del", ID: "a"}, {Op: "add", ID: "b", Msg: "1//-"}}
-	subOpts := [][]string{nil, {"rm=a"}}
+	subOpts := [][]string{nil, {"rm=a,f,fc"}}
 	var rec func(ops []Op)
 	rec = func(ops []Op) {
 		if len(ops) > 0 {
@@ -1519,8 +1596,32 @@ func stallScripts(thorough bool) []Script {
 		v("", sub("c"), sub("a", "uo"), sub("b"), hold("a"), set("1//-"), set("2//-"), Op{Op: "unsub", Opts: []string{"name=a"}},
 			set("3//-"), set("4//-", "wt=3")),
 	}
+	// Collection: Update / Add / Delete announce without a deadline. The forwarder of the held subscriber
+	// takes the first change; the next write (stallw) waits at that listener until its consumer receives
+	// again (the harness lets it after stallPatience, or as soon as the write has returned): the write
+	// must succeed and EVERY open subscriber - registered before or after the held one, the held one too -
+	// must get its event exactly once; the writes after it as usual.
+	c := func(init []string, ops ...Op) Script {
+		return Script{Cfg: Cfg{Kind: "coll", Tick: 1, Init: init}, Ops: ops}
+	}
+	upd := func(id, msg string, opts ...string) Op { return Op{Op: "upd", ID: id, Msg: msg, Opts: opts} }
+	add := func(id, msg string, opts ...string) Op { return Op{Op: "add", ID: id, Msg: msg, Opts: opts} }
+	del := func(id string, opts ...string) Op { return Op{Op: "del", ID: id, Opts: opts} }
+	out = append(out,
+		// healthy subscribers before and after the held one; the waiting write is an update
+		c(nil, sub("b"), sub("a"), sub("c", "rm=a,f,fc"), hold("a"), add("x", "1//-"), stallWOp(upd("x", "2/x/-/3:4/-"), "a"),
+			upd("x", "3//-", "wt=9"), del("x"), sub("z")),
+		// initial record, masks, updates-only; the waiting write is a Delete; then the id is added again
+		c([]string{"a~1/x/-"}, sub("c", "uo"), sub("a", "rm=s"), sub("b", "rm=a"), hold("a"), upd("a", "2/y/-", "um=a"),
+			stallWOp(del("a"), "a"), add("a", "5//-"), upd("b", "1//-", "cia")),
+		// the held one is the FIRST listener; the waiting write creates another item; a second round
+		c(nil, sub("a"), sub("b", "uo"), hold("a"), add("x", "1//-"), stallWOp(add("y", "2//-", "wt=3"), "a"), upd("x", "4//-"),
+			hold("a"), upd("y", "5//-"), resume("a"), del("y")),
+	)
 	if thorough {
 		out = append(out,
+			c([]string{"a~1//-", "b~2//-"}, sub("a", "rm=a"), sub("c"), hold("c"), upd("a", "2//-"), stallWOp(upd("b", "3/x/-", "cia"), "c"),
+				hold("a"), del("a"), stallWOp(del("b"), "a"), add("a", "1//-")),
 			v("", sub("a", "uo"), sub("b"), hold("a"), set("1//-"), set("2//-"), set("3//-"), resume("a"), set("4//-")),
 			v("1//-", sub("c"), sub("a", "rm=a"), hold("a"), set("2//-"), set("3//-"), resume("a"), hold("c"), set("4//-"), set("5//-"),
 				resume("c"), set("6//-")),
